@@ -31,6 +31,7 @@ import (
 	"github.com/echovault/sugardb/internal"
 	"github.com/echovault/sugardb/internal/constants"
 	"github.com/echovault/sugardb/internal/eviction"
+	"github.com/echovault/sugardb/internal/verifhook"
 )
 
 // SwapDBs swaps every TCP client connection from database1 over to database2.
@@ -78,6 +79,7 @@ func (server *SugarDB) SwapDBs(database1, database2 int) {
 // Flush flushes all the data from the database at the specified index.
 // When -1 is passed, all the logical databases are cleared.
 func (server *SugarDB) Flush(database int) {
+	verifhook.Point("ks.flush")
 	server.storeLock.Lock()
 	defer server.storeLock.Unlock()
 
@@ -117,6 +119,7 @@ func (server *SugarDB) Flush(database int) {
 }
 
 func (server *SugarDB) keysExist(ctx context.Context, keys []string) map[string]bool {
+	verifhook.Point("ks.keysExist")
 	server.storeLock.RLock()
 	defer server.storeLock.RUnlock()
 
@@ -133,6 +136,7 @@ func (server *SugarDB) keysExist(ctx context.Context, keys []string) map[string]
 }
 
 func (server *SugarDB) getExpiry(ctx context.Context, key string) time.Time {
+	verifhook.Point("ks.getExpiry")
 	server.storeLock.RLock()
 	defer server.storeLock.RUnlock()
 
@@ -147,6 +151,7 @@ func (server *SugarDB) getExpiry(ctx context.Context, key string) time.Time {
 }
 
 func (server *SugarDB) getValues(ctx context.Context, keys []string) map[string]interface{} {
+	verifhook.Point("ks.getValues")
 	server.storeLock.Lock()
 	defer server.storeLock.Unlock()
 
@@ -188,7 +193,9 @@ func (server *SugarDB) getValues(ctx context.Context, keys []string) map[string]
 	}
 
 	// Asynchronously update the keys in the cache.
+	verifhook.Point("async.spawn")
 	go func(ctx context.Context, keys []string) {
+		defer verifhook.Point("async.done")
 		if _, err := server.updateKeysInCache(ctx, keys); err != nil {
 			log.Printf("getValues error: %+v\n", err)
 		}
@@ -198,6 +205,7 @@ func (server *SugarDB) getValues(ctx context.Context, keys []string) map[string]
 }
 
 func (server *SugarDB) setValues(ctx context.Context, entries map[string]interface{}) error {
+	verifhook.Point("ks.setValues")
 	server.storeLock.Lock()
 	defer server.storeLock.Unlock()
 
@@ -237,7 +245,9 @@ func (server *SugarDB) setValues(ctx context.Context, entries map[string]interfa
 	}
 
 	// Asynchronously update the keys in the cache.
+	verifhook.Point("async.spawn")
 	go func(ctx context.Context, entries map[string]interface{}) {
+		defer verifhook.Point("async.done")
 		for key, _ := range entries {
 			_, err := server.updateKeysInCache(ctx, []string{key})
 			if err != nil {
@@ -250,6 +260,7 @@ func (server *SugarDB) setValues(ctx context.Context, entries map[string]interfa
 }
 
 func (server *SugarDB) setExpiry(ctx context.Context, key string, expireAt time.Time, touch bool) {
+	verifhook.Point("ks.setExpiry")
 	server.storeLock.Lock()
 	defer server.storeLock.Unlock()
 
@@ -269,7 +280,9 @@ func (server *SugarDB) setExpiry(ctx context.Context, key string, expireAt time.
 
 	// If touch is true, update the keys status in the cache.
 	if touch {
+		verifhook.Point("async.spawn")
 		go func(ctx context.Context, key string) {
+			defer verifhook.Point("async.done")
 			_, err := server.updateKeysInCache(ctx, []string{key})
 			if err != nil {
 				log.Printf("setExpiry error: %+v\n", err)
@@ -335,6 +348,7 @@ func (server *SugarDB) createDatabase(database int) {
 }
 
 func (server *SugarDB) getState() map[int]map[string]interface{} {
+	verifhook.Point("ks.getState")
 	// Wait unit there's no state mutation or copy in progress before starting a new copy process.
 	for {
 		if !server.stateCopyInProgress.Load() && !server.stateMutationInProgress.Load() {
